@@ -21,7 +21,7 @@ def bm3_energy(v, v0, b0, bp, e0):
 
 
 def make_dataset(rng, nv=6, nq=2, na=2, lattice=True, keys=None, v0=None, spectrum="powerlaw",
-                 nm=1, positive_definite=True, grun=(0.4, 2.2)):
+                 nm=1, positive_definite=True, grun=(0.4, 2.2), table_volumes="same"):
     """returns dict(qha=<QHAInputData-like dict>, elast=<dict>) of plain python numbers rounded to the
     precision the file formats carry"""
     np_ = 3 * na
@@ -85,6 +85,14 @@ def make_dataset(rng, nv=6, nq=2, na=2, lattice=True, keys=None, v0=None, spectr
             base[k] = rng.uniform(-25, 25)
     slope = {k: rng.uniform(2.0, 6.0) if k in ORTHO else rng.uniform(-0.5, 0.5) for k in keys}
     rows = []
+    # the static table may be tabulated on its own volume points (docs: "at a series of volume points"), not the
+    # phonon file's: "shifted" = same count, other points; "more"/"fewer" = another count
+    pvols = vols
+    if table_volumes != "same":
+        r2 = random_like(rng)
+        nt_ = {"shifted": nv, "more": nv + 2, "fewer": max(4, nv - 1)}[table_volumes]
+        hi, lo = vols[0] * 1.004, vols[-1] * 0.996
+        vols = sorted({round(hi - (hi - lo) * (k + r2.uniform(-0.3, 0.3)) / (nt_ - 1), 6) for k in range(nt_)}, reverse=True)
     for v in vols:
         comp = (v0 / v - 1.0) * 100.0
         rows.append([round(base[k] + slope[k] * comp * 3 + 0.05 * comp * comp, 3) for k in keys])
@@ -97,9 +105,15 @@ def make_dataset(rng, nv=6, nq=2, na=2, lattice=True, keys=None, v0=None, spectr
             x = math.log(v / v0)
             lat.append((round(a0 * math.exp(ka * x), 8), round(b0_ * math.exp(kb * x), 8),
                         round(c0 * math.exp(kc * x), 8)))
-    elast = dict(vref=vols[min(1, nv - 1)], nv=nv, cellmass=cellmass, keys=keys, volumes=vols, rows=rows,
+    elast = dict(vref=pvols[min(1, nv - 1)], nv=len(vols), cellmass=cellmass, keys=keys, volumes=vols, rows=rows,
                  lattice=lat)
     return dict(qha=qha, elast=elast)
+
+
+def random_like(rng):
+    """an independent generator seeded from rng WITHOUT advancing it (keeps the default stream of make_dataset stable)"""
+    import random
+    return random.Random(repr(rng.getstate()[1][:4]))
 
 
 def write_qha(path, qha, comment="QHA Input data"):
